@@ -4,7 +4,7 @@
 // only; it is compiled only with the build tag "verif" and then adds nothing but the
 // package clause.
 
-package join
+package unite
 
 // ---------------------------------------------------------------- C10(a): interrupt interval
 
@@ -21,7 +21,8 @@ package join
 // ---------------------------------------------------------------- the discipline
 //
 // Ghost state (changed only by the channel / clock events below):
-//   gIn[0..gInN)  elements received from the input, in order
+//   gIn[0..gInN)  elements of the slices received from the input, flattened, in order
+//   gB, gBprev    the last two input-slice boundaries (positions in gIn)
 //   gOutN         elements delivered (sum of the lengths of the slices sent)
 //   gClosed       the input was observed closed
 //   gOwned        backing arrays handed to the consumer for good (copy mode)
@@ -30,6 +31,8 @@ package join
 
 //@ ghost var gIn map[int]T
 //@ ghost var gInN int
+//@ ghost var gB int
+//@ ghost var gBprev int
 //@ ghost var gOutN int
 //@ ghost var gClosed bool
 //@ ghost var gOwned set
@@ -37,19 +40,25 @@ package join
 //@ ghost var gLastDeliv time
 
 //@ event recv dsc.opts.Input (item, opened)
-//@   effect gIn := ite(opened, store(gIn, gInN, item), gIn)
-//@   effect gInN := ite(opened, gInN + 1, gInN)
+//@   effect gIn := ite(opened, seqappend(gIn, gInN, item), gIn)
+//@   effect gInN := ite(opened, gInN + len(item), gInN)
+//@   effect gBprev := ite(opened, gB, gBprev)
+//@   effect gB := ite(opened, gInN + len(item), gB)
 //@   effect gClosed := gClosed || !opened
 
 //@ event recv ticker.C ()
 
-// What C03 / C08 / C09 say about a slice at the moment it is delivered.
+// What C03 / C08 / C09 / C11 say about a slice at the moment it is delivered.
 //@ event send dsc.output (s)
 //@   requires [C03] never-empty: len(s) >= 1
-//@   requires [C03] at-most-joinsize: len(s) <= dsc.opts.JoinSize
+//@   requires [C03] oversize-only-a-whole-big-input-slice: len(s) > dsc.opts.JoinSize ==> (gOutN == gBprev && gOutN + len(s) == gB)
 //@   requires [C03] continues-the-input-stream: gOutN + len(s) <= gInN && (forall j :: 0 <= j && j < len(s) ==> s[j] == gIn[gOutN + j])
-//@   requires [C09] cut-short-only-by-timeout-or-end: dsc.opts.Timeout <= 0 ==> (len(s) == dsc.opts.JoinSize || gClosed)
-//@   requires [C09] short-slice-not-before-timeout: (len(s) < dsc.opts.JoinSize && !gClosed) ==> gClock - gLastDeliv >= dsc.opts.Timeout
+//@   requires [C11] ends-at-an-input-boundary: gOutN + len(s) == gB || gOutN + len(s) == gBprev
+//@   requires [C11] big-input-slice-gets-its-own-output: (gB - gBprev >= dsc.opts.JoinSize && gOutN + len(s) == gB) ==> gOutN == gBprev
+//@   requires [C09] maximal-without-timeout: dsc.opts.Timeout <= 0 ==> (len(s) >= dsc.opts.JoinSize || gClosed
+//@            || (gOutN + len(s) == gBprev && len(s) + (gB - gBprev) > dsc.opts.JoinSize))
+//@   requires [C09] non-maximal-not-before-timeout: (len(s) < dsc.opts.JoinSize && !gClosed
+//@            && !(gOutN + len(s) == gBprev && len(s) + (gB - gBprev) > dsc.opts.JoinSize)) ==> gClock - gLastDeliv >= dsc.opts.Timeout
 //@   requires [C08] copy-shares-no-memory: !dsc.opts.NoCopy ==> (!in(gOwned, s.arr) && s.arr != dsc.join.arr)
 //@   requires [C08] nothing-on-loan: gLent == 0
 //@   effect gOutN := gOutN + len(s)
@@ -77,9 +86,18 @@ package join
 //@   [*] cap(dsc.join) == dsc.opts.JoinSize && len(dsc.join) <= dsc.opts.JoinSize && dsc.join.arr != 0 && allocated(dsc.join.arr)
 //@   [*] dsc.interruptInterval >= 0
 
+// Between two inputs: everything received is either delivered or in the buffer, and the
+// buffer ends at the last input boundary.
 //@ pred SEQ(dsc)
-//@   [C03] gInN == gOutN + len(dsc.join) && gOutN >= 0
+//@   [C03 C09 C11] gInN == gOutN + len(dsc.join) && gOutN >= 0 && gB == gInN && gBprev <= gB
 //@   [C03] forall j :: 0 <= j && j < len(dsc.join) ==> dsc.join[j] == gIn[gOutN + j]
+//@   [C11] gB - gBprev >= dsc.opts.JoinSize ==> len(dsc.join) == 0
+
+// While an input slice `item` is pending: the buffer ends at the boundary before it.
+//@ pred PENDING(dsc, item)
+//@   [C03 C09 C11] gInN == gOutN + len(dsc.join) + len(item) && gOutN >= 0 && gB == gInN && gBprev == gOutN + len(dsc.join)
+//@   [C03] forall j :: 0 <= j && j < len(dsc.join) ==> dsc.join[j] == gIn[gOutN + j]
+//@   [C03] forall j :: 0 <= j && j < len(item) ==> item[j] == gIn[gBprev + j]
 
 //@ pred OWN(dsc)
 //@   [C08] !in(gOwned, dsc.join.arr) && gLent == 0
@@ -110,53 +128,77 @@ package join
 //@   ensures [* C03] len(result) == len(item) && (forall j :: 0 <= j && j < len(item) ==> result[j] == item[j])
 //@   ensures [C08] (!dsc.opts.NoCopy && len(item) > 0) ==> fresh(result.arr)
 
+// send delivers `item`, which is either the buffer or a pending input slice.
 //@ func (*Discipline).send
 //@   requires [*] WFJ(dsc)
 //@   requires [C03 C08] len(item) >= 1
-//@   requires [C03] len(item) <= dsc.opts.JoinSize && gOutN + len(item) <= gInN
+//@   requires [C03] gOutN + len(item) <= gInN
+//@   requires [C03] len(item) > dsc.opts.JoinSize ==> (gOutN == gBprev && gOutN + len(item) == gB)
 //@   requires [C03] forall j :: 0 <= j && j < len(item) ==> item[j] == gIn[gOutN + j]
-//@   requires [C09] dsc.opts.Timeout <= 0 ==> (len(item) == dsc.opts.JoinSize || gClosed)
-//@   requires [C09] (len(item) < dsc.opts.JoinSize && !gClosed) ==> gClock - gLastDeliv >= dsc.opts.Timeout
+//@   requires [C11] gOutN + len(item) == gB || gOutN + len(item) == gBprev
+//@   requires [C11] (gB - gBprev >= dsc.opts.JoinSize && gOutN + len(item) == gB) ==> gOutN == gBprev
+//@   requires [C09] dsc.opts.Timeout <= 0 ==> (len(item) >= dsc.opts.JoinSize || gClosed
+//@            || (gOutN + len(item) == gBprev && len(item) + (gB - gBprev) > dsc.opts.JoinSize))
+//@   requires [C09] (len(item) < dsc.opts.JoinSize && !gClosed
+//@            && !(gOutN + len(item) == gBprev && len(item) + (gB - gBprev) > dsc.opts.JoinSize)) ==> gClock - gLastDeliv >= dsc.opts.Timeout
 //@   requires [C08] OWN(dsc)
-//@   requires [C08] item.arr == dsc.join.arr
 //@   modifies gOutN, gLastDeliv, gLent, gOwned
-//@   ensures [C03] gOutN == old(gOutN) + len(item)
+//@   ensures [C03 C09 C11] gOutN == old(gOutN) + len(item)
 //@   ensures [C09] gLastDeliv == gClock
 //@   ensures [C08] OWN(dsc)
 
-//@ func (*Discipline).pass
+//@ func (*Discipline).forward
 //@   requires [*] WFJ(dsc)
-//@   requires [C03] SEQ(dsc)
+//@   requires [* C03 C10 C11] len(dsc.join) == 0
+//@   requires [C03 C09 C11] PENDING(dsc, item)
+//@   requires [C03 C08 C09 C11] len(item) >= dsc.opts.JoinSize
 //@   requires [C08] OWN(dsc)
 //@   requires [C09] TIME(dsc)
-//@   requires [C09] dsc.opts.Timeout <= 0 ==> (len(dsc.join) == 0 || len(dsc.join) == dsc.opts.JoinSize || gClosed)
+//@   modifies dsc.passAt, gClock, gOutN, gLastDeliv, gLent, gOwned
+//@   ensures [*] WFJ(dsc)
+//@   ensures [* C03 C10] len(dsc.join) == 0
+//@   ensures [C03 C09 C11] SEQ(dsc)
+//@   ensures [C08] OWN(dsc)
+//@   ensures [C09] TIME(dsc)
+
+// pass flushes the buffer. It may be called between inputs (SEQ) or with an input slice
+// pending (the buffer then ends at gBprev); `pend` below is the length of what is pending.
+//@ func (*Discipline).pass
+//@   requires [*] WFJ(dsc)
+//@   requires [C03 C09 C11] gOutN >= 0 && gB == gInN && gBprev <= gB && (gOutN + len(dsc.join) == gB || gOutN + len(dsc.join) == gBprev)
+//@   requires [C03] forall j :: 0 <= j && j < len(dsc.join) ==> dsc.join[j] == gIn[gOutN + j]
+//@   requires [C11] (gB - gBprev >= dsc.opts.JoinSize && gB != gBprev) ==> (len(dsc.join) == 0 || gOutN + len(dsc.join) == gBprev)
+//@   requires [C08] OWN(dsc)
+//@   requires [C09] TIME(dsc)
+//@   requires [C09] dsc.opts.Timeout <= 0 ==> (len(dsc.join) == 0 || len(dsc.join) == dsc.opts.JoinSize || gClosed
+//@            || (gOutN + len(dsc.join) == gBprev && len(dsc.join) + (gB - gBprev) > dsc.opts.JoinSize))
 //@   requires [C09] len(dsc.join) == 0 || len(dsc.join) == dsc.opts.JoinSize || gClosed || gClock - dsc.passAt >= dsc.opts.Timeout
+//@            || (gOutN + len(dsc.join) == gBprev && len(dsc.join) + (gB - gBprev) > dsc.opts.JoinSize)
 //@   modifies dsc.join, dsc.passAt, gClock, gOutN, gLastDeliv, gLent, gOwned
 //@   ensures [*] dsc.join.arr == old(dsc.join.arr) && cap(dsc.join) == old(cap(dsc.join)) && dsc.join.off == old(dsc.join.off)
 //@   ensures [*] WFJ(dsc)
-//@   ensures [* C03 C10] len(dsc.join) == 0
-//@   ensures [C03] SEQ(dsc)
+//@   ensures [* C03 C10 C11] len(dsc.join) == 0
+//@   ensures [C03 C09 C11] gOutN == old(gOutN) + old(len(dsc.join))
 //@   ensures [C08] OWN(dsc)
 //@   ensures [C09] TIME(dsc)
 
 //@ func (*Discipline).process
 //@   requires [*] WFJ(dsc)
 //@   requires [*] len(dsc.join) < dsc.opts.JoinSize
-//@   requires [C03] gInN == gOutN + len(dsc.join) + 1 && item == gIn[gInN - 1] && gOutN >= 0
-//@   requires [C03] forall j :: 0 <= j && j < len(dsc.join) ==> dsc.join[j] == gIn[gOutN + j]
+//@   requires [C03 C09 C11] PENDING(dsc, item)
 //@   requires [C08] OWN(dsc)
 //@   requires [C09] TIME(dsc)
 //@   modifies dsc.join, elems(dsc.join), dsc.passAt, gClock, gOutN, gLastDeliv, gLent, gOwned
 //@   ensures [*] WFJ(dsc)
 //@   ensures [*] len(dsc.join) < dsc.opts.JoinSize
-//@   ensures [C03] SEQ(dsc)
+//@   ensures [C03 C09 C11] SEQ(dsc)
 //@   ensures [C08] OWN(dsc)
 //@   ensures [C09] TIME(dsc)
 
 //@ pred INV(dsc)
 //@   [*] WFJ(dsc)
 //@   [*] len(dsc.join) < dsc.opts.JoinSize
-//@   [C03] SEQ(dsc)
+//@   [C03 C09 C11] SEQ(dsc)
 //@   [C08] OWN(dsc)
 //@   [C09] TIME(dsc)
 
@@ -164,28 +206,28 @@ package join
 //@   requires [*] INV(dsc)
 //@   requires [*] dsc.interruptInterval > 0
 //@   requires [C09] dsc.opts.Timeout > 0
-//@   requires [C03] !gClosed
-//@   modifies dsc.join, elems(dsc.join), dsc.passAt, gClock, gIn, gInN, gClosed, gOutN, gLastDeliv, gLent, gOwned
+//@   requires [C03 C09 C11] !gClosed
+//@   modifies dsc.join, elems(dsc.join), dsc.passAt, gClock, gIn, gInN, gB, gBprev, gClosed, gOutN, gLastDeliv, gLent, gOwned
 //@   ensures [C03] gClosed && gOutN == gInN
 //@   loop 0
 //@     invariant [*] INV(dsc)
-//@     invariant [C03] !gClosed
+//@     invariant [C03 C09 C11] !gClosed
 
 //@ func (*Discipline).loopUntimeouted
 //@   requires [*] INV(dsc)
-//@   requires [C03] !gClosed
+//@   requires [C03 C09 C11] !gClosed
 //@   requires [C09] dsc.opts.Timeout <= 0
-//@   modifies dsc.join, elems(dsc.join), dsc.passAt, gClock, gIn, gInN, gClosed, gOutN, gLastDeliv, gLent, gOwned
+//@   modifies dsc.join, elems(dsc.join), dsc.passAt, gClock, gIn, gInN, gB, gBprev, gClosed, gOutN, gLastDeliv, gLent, gOwned
 //@   ensures [C03] gClosed && gOutN == gInN
 //@   loop 0
 //@     invariant [*] INV(dsc)
-//@     invariant [C03] !gClosed
+//@     invariant [C03 C09 C11] !gClosed
 
 //@ func (*Discipline).main
 //@   requires [*] INV(dsc)
-//@   requires [C03] !gClosed
+//@   requires [C03 C09 C11] !gClosed
 //@   requires [C09] (dsc.interruptInterval == 0) <==> (dsc.opts.Timeout <= 0)
-//@   modifies dsc.join, elems(dsc.join), dsc.passAt, gClock, gIn, gInN, gClosed, gOutN, gLastDeliv, gLent, gOwned
+//@   modifies dsc.join, elems(dsc.join), dsc.passAt, gClock, gIn, gInN, gB, gBprev, gClosed, gOutN, gLastDeliv, gLent, gOwned
 
 //@ func Opts.isValid
 //@   ensures [*] (result == nil) <==> (opts.Input != nil && opts.JoinSize != 0)
@@ -197,7 +239,7 @@ package join
 // The ghost state of a discipline that does not exist yet is empty. JoinSize and
 // cap(Input)+1 are sizes the runtime can allocate (otherwise make panics in New).
 //@ func New
-//@   requires [*] ghost-initial-state: gInN == 0 && gOutN == 0 && !gClosed && gLent == 0 && gLastDeliv == gClock && (forall r :: !in(gOwned, r))
+//@   requires [*] ghost-initial-state: gInN == 0 && gOutN == 0 && gB == 0 && gBprev == 0 && !gClosed && gLent == 0 && gLastDeliv == gClock && (forall r :: !in(gOwned, r))
 //@   requires [*] allocatable: cap(opts.Input) + 1 < two63 && opts.JoinSize < two63
 //@   modifies gClock
 //@   ensures [*] result1 == nil ==> result0 != nil
